@@ -189,7 +189,7 @@ def _run(pid, tier):
         base_ = mgmodel.Adapter(mgmodel.lattice_mesh(kind_))
         base_.project()
         nm_ = [c_.name for c_ in base_.geo.columnlist]
-        zb = int(round(base_.geo.layerlist[1].bottom / mgmodel.H))
+        zb = int(round(base_.geo.layerlist[1].bottom / mgmodel.H))       # (the first layer's bottom: the column snaps down one layer)
         for sub in ([nm_[0], nm_[1]], [nm_[0], nm_[-1], nm_[2]], [nm_[2], nm_[0]]):
             ad = _copy.deepcopy(base_)
             t = mgmodel.record(ad, [{"op": "set_surface", "args": [nm_[0], zb + 1]}, {"op": "snap_columns_to_layers", "args": [2, sub]}])
@@ -306,9 +306,11 @@ def _run(pid, tier):
             for l in range(1, len(t)):
                 if l > first_bad or "totals" not in t[l]:
                     break
-                if not t[l]["totals"].get("wells_ok", True):
-                    rep.violation(t[l]["act"]["op"] + ":wells", "P1_ViewsAgree", {"mesh": kind, "actions": [x["act"] for x in t[:l + 1]],
-                                                                               "difference": "well lookup and well list disagree"})
+                if not t[l]["totals"].get("wells_ok", True) or not t[l]["totals"].get("layers_ok", True):
+                    which = "well" if not t[l]["totals"].get("wells_ok", True) else "layer"
+                    rep.violation(t[l]["act"]["op"] + ":" + which + "s", "P1_ViewsAgree",
+                                  {"mesh": kind, "actions": [x["act"] for x in t[:l + 1]],
+                                   "difference": "%s lookup and %s list disagree (or two %ss share a name)" % (which, which, which)})
                     break
         # conservation as a floating-point leaf (decides states off the lattice, e.g. layers refined by 3, shipped geometries)
         for l in range(1, len(t)):
